@@ -248,7 +248,8 @@ let clauses_iter h (impl : string) : (string * bool) list =
     [ ("no_panic", true);
       ("iter_spec", exp_changes = Some (get ih "changes"));
       ("slices_spec", exp_slices = Some (get ih "slices"));
-      ("recap_id", get ih "recap" = fmt_ops ops);
+      (* re-applying every op to a capturing hook reproduces it, owned hook and borrowed (&mut D) hook alike *)
+      ("recap_id", get ih "recap" = fmt_ops ops && get ih "ref_same" = "1");
       (* whole-list iteration = concatenation of per-op expansions, for ANY op list *)
       ("all_changes_concat", get ih "all_same" = "1") ]
 
@@ -257,13 +258,16 @@ let clauses_group h (impl : string) : (string * bool) list =
   else
     let ih = parse_impl impl in
     let nn = nat_of_int (int_of_string (get h "n")) in
-    let ops = calls_to_ops (parse_calls (get h "ops")) in
-    let gs =
-      match get ih "groups" with
+    let textdiff = get_def h "via" "fn" = "textdiff" in
+    (* via=textdiff: the ops are the text diff's own (reported by the implementation) *)
+    let ops = calls_to_ops (parse_calls (if textdiff then get ih "ops" else get h "ops")) in
+    let groups key =
+      match get ih key with
       | "-" -> []
       | s -> List.map (fun g -> calls_to_ops (parse_calls g)) (String.split_on_char '|' s)
     in
-    [ ("no_panic", true); ("group_spec", check_groups ops nn gs) ]
+    [ ("no_panic", true);
+      ("group_spec", check_groups ops nn (groups "groups") && ((not textdiff) || check_groups ops nn (groups "hunks"))) ]
 
 let clauses (line : string) (impl : string) : (string * bool) list =
   let comp, h = parse_kv line in
